@@ -38,22 +38,30 @@ def c13_groups(tier):
 
 KIND_OPTS = {
     'String': {'len': [1, 2]}, 'NumberSequence': {'len': [1, 2]}, 'ColorSequence': {'len': [1, 2]}, 'PhysicalProperties': {'custom': [True, False]},
-    'CFrame': {'rot': [0, 2]}, 'BrickColor': {'numbers': [194, 1032]},
+    'CFrame': {'rot': [0, 2]}, 'BrickColor': {'numbers': [194, 1032]}, 'Font': {'weight': [700, 400], 'style': [1, 0], 'face': [1, 0]},
+}
+
+
+KIND_OPTS3 = {
+    'String': {'len': [0, 3, 1]}, 'NumberSequence': {'len': [0, 3, 1]}, 'ColorSequence': {'len': [2, 0, 1]}, 'PhysicalProperties': {'custom': [False, True, True]},
+    'CFrame': {'rot': [0, 0, 0]}, 'BrickColor': {'numbers': [1, 365, 1001]}, 'Font': {'weight': [100, 900, 400], 'style': [0, 1, 0], 'face': [0, 1, 0]},
 }
 
 
 def c04_groups(tier):
     q = tier == 'quick'
-    shapes = [((-1,), ['A']), ((-1, 0), ['A', 'B']), ((-1, -1), ['A', 'A']), ((-1, 0, 0), ['A', 'B', 'B'])]
+    # siblings get distinct classes where their order matters (instances are told apart by class: the files carry no Name column)
+    shapes = [((-1,), ['A']), ((-1, 0), ['A', 'B']), ((-1, -1), ['A', 'A']), ((-1, -1), ['B', 'A']), ((-1, 0, 0), ['A', 'B', 'B']), ((-1, 0, 0), ['A', 'C', 'B'])]
     if not q:
         shapes += [((-1, 0, 1), ['A', 'B', 'A']), ((1, -1, 1), ['A', 'B', 'C'])]
     kinds = list(B.FIELDS)
     g = [
         dict(id='M8.chunk', desc='Chunk::decode accepts every well-formed uncompressed chunk and returns exactly its name and bytes (framing per docs/binary.md "Chunks")',
              bounds='every input of 16..20 bytes', cases=[dict(what='chunk', len=n) for n in range(16, 21)], budget=600),
+        compressed_group(),
         dict(id='M8.tree', desc='a spec-conformant file for a forest decodes to that forest whatever the referent numbering, class ids, INST chunk order, PRNT row order, META / unknown chunks / service format',
              bounds='forests %s; referents and class ids symbolic (distinct, < 2^30); all INST / PRNT orders' % [list(s) for s, _ in shapes],
-             cases=[dict(what='tree', shape=s, classes=c, meta=True, unknown=True, service=True, row=r) for s, c in shapes for r in range(math.factorial(len(s)))], budget=900),
+             cases=[dict(what='tree', shape=s, classes=c, meta=True, unknown=len(set(c)) < 3, service=len(set(c)) < 3, row=r) for s, c in shapes for r in range(math.factorial(len(s)))], budget=1500),
         dict(id='M9.prop', desc='PROP column of each wire type written by a spec encoder (docs/binary.md) decodes to bit-identical values under the given name, for unknown classes',
              bounds='2 instances, every value symbolic (all bit patterns); kinds: %s' % ', '.join(kinds),
              cases=[dict(what='prop', kind=k, n=2, opts=KIND_OPTS.get(k, {})) for k in kinds if k != 'Content'] +
@@ -73,6 +81,9 @@ def c03_groups(tier):
     return [
         dict(id='M4.chunk', desc='ChunkBuilder::dump (uncompressed) writes name, compressed length 0, length, reserved 0, data as docs/binary.md specifies',
              bounds='0..6 symbolic body bytes, sink with room for everything', cases=[dict(what='dump', len=n, room=64) for n in range(0, 7)], budget=120),
+        dict(id='M4.compressed', desc='ChunkBuilder::dump with LZ4 / Zstandard: header fields and body are consistent (compressed length = number of body bytes = the compressor output; or 0 and the raw data), whatever the compressor returns',
+             bounds='2..5 symbolic data bytes; compressor = contract stub returning arbitrary bytes of length 1, n-1, n, n+1 or an error',
+             cases=[dict(what='dump', len=n, room=64, comp=c) for n in (2, 3, 5) for c in ('Lz4', 'Zstd')], budget=120),
     ]
 
 
@@ -116,7 +127,19 @@ def ser_groups(tier, prop):
                   ('header counts, one INST chunk, one PROP chunk per property with exactly one value per instance, PRNT, END; the Values section equals the documented encoding of the values' if prop == 'C03'
                    else 'the real reader returns the same names, classes and bit-identical values'),
              bounds='unknown class, compression off, 2 instances; kinds: %s (CFrame: general matrices, entries of magnitude >= 2)' % ', '.join(kinds),
-             cases=[dict(what='ser', kind=k, n=2, opts=KIND_OPTS.get(k, {}), prop=prop) for k in kinds], budget=600),
+             cases=[dict(what='ser', kind=k, n=2, opts=KIND_OPTS.get(k, {}), prop=prop) for k in kinds] +
+                   ([] if tier == 'quick' else [dict(what='ser', kind=k, n=3, opts=KIND_OPTS3.get(k, {}), prop=prop) for k in kinds]), budget=900),
+        dict(id='M3.defaults' if prop == 'C03' else 'M1.defaults',
+             desc='one instance carries the property, the other does not: ' + ('the column still has exactly one value per instance and is a valid encoding (the missing one is a constant default)' if prop == 'C03'
+                                                                              else 'the carrier reads back its value bit-identically; the other gains a value of the same type (documented normalisation)'),
+             bounds='2%s instances, fixed-size kinds, either instance lacking the property' % ('' if tier == 'quick' else '-3'),
+             cases=[dict(what='ser', kind=k, n=n_, missing=m_, prop=prop) for k in ('Bool', 'Int32', 'Float32', 'Float64', 'Int64', 'Enum', 'UDim2', 'Ray', 'Vector3', 'Vector3int16', 'Color3', 'Color3uint8', 'NumberRange', 'Rect')
+                    for n_, m_ in ([(2, [0]), (2, [1])] + ([] if tier == 'quick' else [(3, [0, 2]), (3, [1])]))], budget=600),
+        dict(id='M3.sstr' if prop == 'C03' else 'M1.sstr',
+             desc='SharedString columns: ' + ('exactly one SSTR chunk before the INST chunks, entries pairwise distinct for every value of the symbolic contents, every column index points at an entry with the value\'s content' if prop == 'C03'
+                                              else 'contents read back unchanged; instances lacking the property gain the (empty) default'),
+             bounds='1-2 instances, 1-2 SharedString properties, contents of 0-1 symbolic bytes (equal and different contents both covered)',
+             cases=[dict(what='sstr', insts=i_, prop=prop) for i_ in ([{'S': 1}], [{'S': 1}, {'S': 1}], [{'S': 1}, {}], [{'S': 1}, {'T': 1}], [{'S': 0}, {'S': 1}], [{'S': 1, 'T': 1}, {'T': 1}])], budget=600),
         dict(id='M3.tree' if prop == 'C03' else 'M2.tree',
              desc='forests with several classes, Ref properties (to written instances, outside the written set, null) and sub-selections of roots: ' +
                   ('unique class ids, every instance once in INST and PRNT, children before parents, sibling order, referent values of Ref properties' if prop == 'C03'
@@ -124,3 +147,11 @@ def ser_groups(tier, prop):
              bounds='%d forests of <= 5 instances, symbolic Refs' % len(SER_TREES),
              cases=[dict(what='sertree', prop=prop, **t) for t in SER_TREES], budget=600),
     ]
+
+
+def compressed_group():
+    sizes, consts = boundary_sizes(['rbx_binary/src/chunk.rs', 'deserializer/mod.rs'])
+    us = sorted({1, 4} | set(sizes))
+    return dict(id='M8.compressed', desc='Chunk::decode on compressed chunks: whenever the decompressor (contract stub: fails, or returns the announced number of arbitrary bytes) succeeds, the chunk is accepted with exactly those bytes; no other reason to reject a well-formed compressed chunk',
+                bounds='compressed length 1 or 5 (symbolic bytes: LZ4 / Zstandard chosen by the magic check), announced length in %s (incl. c, c+1 for the constants %s of chunk.rs)' % (us, consts),
+                cases=[dict(what='cchunk', clen=c, ulen=u, range_limit=u + 8) for c in (1, 5) for u in us], budget=600)
